@@ -153,7 +153,7 @@ func c11bigBatch(c *mon.Ctx) {
 	for r := 0; r < rounds; r++ {
 		id := fmt.Sprintf("bigbatch/%d", r)
 		c.Case(id, func() {
-			n := []int{256, 257, 300, 1024, 4096, 8192}[r%6]
+			n := []int{256, 257, 300, 1024, 1025, 2049, 4096, 8192}[r%8]
 			store := make([]banderwagon.Element, n)
 			list := make([]*banderwagon.Element, n)
 			idx := make([]int, n)
